@@ -225,7 +225,8 @@ def entry_point_check(ctx):
     bad = 0
     for n in (5, 6, 7, 12, 13):
         case = gen_case(ctx.rng, 0, force_n=n)
-        case["mal"] = None
+        while case["mal"] is not None:  # the entry-point check uses well-formed files only (the malformed stream is compared above)
+            case = gen_case(ctx.rng, 0, force_n=n)
         case["lines"] = [l for l in case["lines"] if l.strip()]
         (d / "a.dx").write_text("".join(l + "\n" for l in case["lines"]))
         pqr = ""
